@@ -1,5 +1,33 @@
 #!/bin/bash
-# Offline build of the harness against /repo's working tree (or $VERIF_REPO) + self-tests of the references.
+# Offline build of the harness against /repo's working tree (or $VERIF_REPO), self-tests of the independent
+# references (known answers, RFC 5769 / RFC 8489 vectors) and a cross-check of the reference crypto against
+# python3's hashlib / hmac / zlib on a deterministic corpus.
 set -e
 cd "$(dirname "$0")"
-exec ./check.sh selftest quick
+./check.sh selftest quick
+CORPUS="$(pwd)/.target/crypto_corpus.txt"
+python3 - "$CORPUS" <<'PY'
+import hashlib, hmac, zlib, sys
+out=open(sys.argv[1],'w')
+def h(b): return b.hex() if b else '-'
+x=12345
+def rnd(n):
+    global x
+    r=bytearray()
+    for _ in range(n):
+        x=(x*6364136223846793005+1442695040888963407)%(1<<64)
+        r.append((x>>33)&0xff)
+    return bytes(r)
+for n in list(range(0,300))+[511,512,513,1000,4096,65535,65556]:
+    d=rnd(n)
+    out.write(f"sha1 {h(d)} - {hashlib.sha1(d).hexdigest()}\n")
+    out.write(f"sha256 {h(d)} - {hashlib.sha256(d).hexdigest()}\n")
+    out.write(f"md5 {h(d)} - {hashlib.md5(d).hexdigest()}\n")
+    out.write(f"crc32 {h(d)} - {zlib.crc32(d)&0xffffffff:08x}\n")
+    for kl in (0,1,16,20,63,64,65,100,200):
+        k=rnd(kl)
+        out.write(f"hmac-sha1 {h(d)} {h(k)} {hmac.new(k,d,hashlib.sha1).hexdigest()}\n")
+        out.write(f"hmac-sha256 {h(d)} {h(k)} {hmac.new(k,d,hashlib.sha256).hexdigest()}\n")
+out.close()
+PY
+./check.sh crosscheck "$CORPUS"
